@@ -95,7 +95,8 @@ Section Diag.
     get T i i = a * d -> get T (S i) (S i) = b * d -> sx * a + ty * b = 1 ->
     let T1 := m_left_elem D 1 1 (- (ty * b)) (sx * a) i (S i) T in
     let T2 := m_right_elem D sx ty (- b) a i (S i) T1 in
-    DiagR r T2 /\ get T2 i i = d /\ get T2 (S i) (S i) = a * b * d.
+    DiagR r T2 /\ get T2 i i = d /\ get T2 (S i) (S i) = a * b * d /\
+    (forall k, k < Nat.min m n -> k <> i -> k <> S i -> get T2 k k = get T k k).
   Proof.
     intros Hi HD Hd Hx Hy Hbz T1 T2. pose proof HD as (W & Hr & Hoff & Hnz & Hz). fold o in Hoff, Hnz, Hz.
     assert (Him : S i < m) by lia. assert (Hin : S i < n) by lia.
@@ -130,7 +131,11 @@ Section Diag.
     assert (Ess : get T2 (S i) (S i) = a * b * d).
     { rewrite HE, !HE1, !Hg by lia. simp_eqb. rewrite Hx, Hy.
       transitivity (a * b * d * (sx * a + ty * b)); [ring|]. rewrite Hbz. ring. }
-    split; [|split; assumption].
+    assert (Eoth : forall k, k < Nat.min m n -> k <> i -> k <> S i -> get T2 k k = dg k).
+    { intros k Hk Hk1 Hk2. rewrite HE, !HE1, !Hg by lia. simp_eqb. reflexivity. }
+    split; [|split; [exact Eii|split; [exact Ess|]]].
+    2:{ intros k Hk Hk1 Hk2. rewrite (Eoth k Hk Hk1 Hk2). symmetry.
+        rewrite (Hg k k) by lia. now rewrite Nat.eqb_refl. }
     split; [exact W2|]. split; [exact Hr|]. split; [|split].
     - intros k l Hk Hl Hne. rewrite HE, !HE1, !Hg by lia.
       destruct (Nat.eq_dec l (S i)) as [->|Hl1]; [|destruct (Nat.eq_dec l i) as [->|Hl2]];
